@@ -244,7 +244,7 @@ func init() {
 		// writer): an indexed path OUTSIDE counter loops names nothing and prints nothing, in the same render (the loop
 		// sits in an included template) and in the next one on the same context
 		for _, loop := range []string{`{% for i := 0; i < 3; i++ %}{%= i %}{% exit %}{% endfor %}`, `{% for i := 0; i < 3; i++ %}{%= i %}{% include c01nosuch %}{% endfor %}`,
-			`{% for i := 0; i < 3; i++ %}{%= i %}{% endfor %}`, `{% for i := 0; i < 3; i++ sep , %}{% for j := 0; j < 2; j++ %}{% exit %}{% endfor %}{% endfor %}`} {
+			`{% for i := 0; i < 3; i++ %}{% if i == 1 %}{% exit %}{% endif %}{%= i %}{% endfor %}`, `{% for i := 0; i < 3; i++ %}{%= i %}{% endfor %}`, `{% for i := 0; i < 3; i++ sep , %}{% for j := 0; j < 2; j++ %}{% exit %}{% endfor %}{% endfor %}`} {
 			after := `[{%= lst[k] pfx < sfx > %}|{%= user.Finance.History[k].Comment prefix ( suffix ) %}|{%= lst[one] %}]`
 			c := &RCase{Tpls: []TplDef{{Key: "loop", Src: loop, KeepFmt: true}, {Key: "after", Src: after, KeepFmt: true}, {Key: "host", Src: `{% include loop %}` + after, KeepFmt: true}},
 				Meta: map[string]any{"bracket-mode-after-loop": loop}}
@@ -292,6 +292,25 @@ func init() {
 			cases = append(cases, c)
 		}
 		cases = append(cases, twoIndexCases(r)...)
+		// the square-bracket mode of counter loops ends with the loop however the loop ends (exit or an error in the FIRST
+		// or in a LATER iteration, a failing writer): a condition on an indexed operand OUTSIDE counter loops compares a
+		// path that names nothing — the same branch before the loop, after it in the same render (the loop sits in an
+		// included template) and in the next render on the same context
+		for _, loop := range []string{`{% for i := 0; i < 3; i++ %}{%= i %}{% exit %}{% endfor %}`, `{% for i := 0; i < 3; i++ %}{% if i == 1 %}{% exit %}{% endif %}{%= i %}{% endfor %}`,
+			`{% for i := 0; i < 3; i++ %}{% if i == 2 %}{% include c02nosuch %}{% endif %}{%= i %}{% endfor %}`, `{% for i := 0; i < 3; i++ %}{%= i %}{% endfor %}`,
+			`{% for i := 0; i < 3; i++ sep , %}{% for j := 0; j < 2; j++ %}{% if i == 1 %}{% exit %}{% endif %}{% endfor %}{% endfor %}`,
+			`{% for i := 0; i < 3; i++ %}{% for _, v := range lst %}{% if i == 1 %}{% break 2 %}{% endif %}{% endfor %}{% endfor %}`} {
+			after := `[{% if user.Finance.History[k].Cost > 1 %}Y{% else %}N{% endif %}|{% if lst[k] == "q" %}Y{% else %}N{% endif %}|{%= lst[one] == "q" ? one : k %}|` +
+				`{% switch lst[k] %}{% case "q" %}Q{% default %}D{% endswitch %}|{% switch %}{% case lst[k] == "q" %}Q{% default %}D{% endswitch %}]`
+			c := &RCase{Tpls: []TplDef{{Key: "loop", Src: loop, KeepFmt: true}, {Key: "after", Src: after, KeepFmt: true}, {Key: "host", Src: after + `{% include loop %}` + after, KeepFmt: true}},
+				Meta: map[string]any{"bracket-mode-after-loop": loop}}
+			c.Ops = []SOp{{Kind: "strs", Name: "lst", Val: []string{"p", "q"}}, {Kind: "static", Name: "k", Val: int64(1)}, {Kind: "static", Name: "one", Val: int64(1)},
+				{Kind: "obj", Name: "user", Val: UserSpec{Id: "u", HasFinance: true, History: []History{{1, 1, "c0"}, {2, 2, "c1"}}}},
+				{Kind: "render", Key: "loop"}, {Kind: "render", Key: "after"}, {Kind: "render", Key: "host"}, {Kind: "render", Key: "loop", FailAt: 2}, {Kind: "render", Key: "after"},
+				{Kind: "render", Key: "loop", FailAt: 3}, {Kind: "render", Key: "after"}}
+			cases = append(cases, c)
+			r.Dist["bracket-mode-after-loop"]++
+		}
 		// the same conditions inside loops (indexed operands `x[i].f` on either side exist only there)
 		cfgL := GenCfg{MaxDepth: 3, MaxNodes: 14, Switch: true, Ternary: true, Loops: true}
 		for i := 0; i < r.N(1500, 50000); i++ {
